@@ -61,6 +61,91 @@ pub proof fn lemma_rsum_cubes(n: int, f: spec_fn(int) -> real, a: real)
     }
 }
 
+// ---- closed forms of the lifted constructors.  These lemmas are part of the contract (a weight scheme with another
+// closed form needs a new lemma); they are proved by the NON-LINEAR solver on the unfolded lifted expressions, so any
+// algebraically equivalent way of writing weights / edges in the source is accepted.
+pub proof fn contract_form_cartesian(points: int, length: real, potential_offset: Option<real>, k: int) by(nonlinear_arith)
+    requires points >= 1
+    ensures ({
+        let a = new_cartesian(points, length, potential_offset);
+        let off = match potential_offset { Some(x) => x, None => 0real };
+        &&& a.integration_weights.len == points && a.grid.len == points && a.potential_offset == off && a.geometry == Geometry::Cartesian
+        &&& (a.integration_weights.at)(k) == (length + off) / (points as real)
+        &&& (a.edges.at)(points) == length + off && (a.edges.at)(0) == 0real
+    })
+{}
+pub proof fn contract_form_spherical(points: int, length: real, k: int) by(nonlinear_arith)
+    requires points >= 1
+    ensures ({
+        let a = new_spherical(points, length);
+        let h = length / (points as real);
+        &&& a.integration_weights.len == points && a.grid.len == points && a.potential_offset == 0real && a.geometry == Geometry::Spherical
+        &&& (a.integration_weights.at)(k) == ((4real * (PI() / 3real)) * (h * h * h)) * ((3 * k * k + 3 * k + 1) as real)
+        &&& (a.edges.at)(points) == length && (a.edges.at)(0) == 0real
+    })
+{}
+pub open spec fn polar_c(points: int, alpha: real, l: real) -> real { ((rexp(((-(2real)) * alpha) * (points as real)) * PI()) * l) * l }
+pub open spec fn polar_k0(alpha: real) -> real {
+    (rexp(2real * alpha) * (((2real * rexp(alpha)) + rexp(2real * alpha)) - 1real))
+        / (((1real + rexp(alpha)) * (1real + rexp(alpha))) * (rexp(2real * alpha) - 1real))
+}
+pub proof fn contract_form_polar_first(points: int, length: real) by(nonlinear_arith)
+    requires points >= 2
+    ensures ({
+        let a = new_polar(points, length);
+        let alpha = new_polar__havoc_alpha(points, length);
+        (a.integration_weights.at)(0) == (polar_k0(alpha) * rexp(2real * alpha)) * polar_c(points, alpha, length)
+    })
+{}
+pub proof fn contract_form_polar_second(points: int, length: real) by(nonlinear_arith)
+    requires points >= 2
+    ensures ({
+        let a = new_polar(points, length);
+        let alpha = new_polar__havoc_alpha(points, length);
+        (a.integration_weights.at)(1) == ((rexp(2real * alpha) - polar_k0(alpha)) * rexp(2real * alpha)) * polar_c(points, alpha, length)
+    })
+{}
+pub proof fn contract_form_polar_rest(points: int, length: real, i: int) by(nonlinear_arith)
+    requires points >= 2, i >= 2
+    ensures ({
+        let a = new_polar(points, length);
+        let alpha = new_polar__havoc_alpha(points, length);
+        (a.integration_weights.at)(i) == (rexp((2real * alpha) * (i as real)) * (rexp(2real * alpha) - 1real)) * polar_c(points, alpha, length)
+    })
+{}
+pub proof fn contract_form_polar_edges(points: int, length: real)
+    requires points >= 2
+    ensures ({
+        let a = new_polar(points, length);
+        let alpha = new_polar__havoc_alpha(points, length);
+        &&& a.integration_weights.len == points && a.grid.len == points && a.potential_offset == 0real && a.geometry == Geometry::Cylindrical
+        &&& (a.edges.at)(0) == 0real
+        &&& (a.edges.at)(points) == length * rexp((-(alpha)) * ((points - points) as real))
+    })
+{}
+/// Axis::volume: prefactor times (edges[n] - offset - edges[0]) to the power of the dimension
+pub proof fn contract_form_volume(a: L_Axis)
+    ensures ({
+        let x = ((a.edges.at)(a.grid.len) - a.potential_offset) - (a.edges.at)(0);
+        volume(a) == (match a.geometry {
+            Geometry::Cartesian => x,
+            // from the statement / geometry: a disc of radius x has area pi x^2, a sphere the volume 4/3 pi x^3
+            Geometry::Cylindrical => PI() * (x * x),
+            Geometry::Spherical => (4real * (PI() / 3real)) * (x * x * x),
+        })
+    })
+{
+    let x = ((a.edges.at)(a.grid.len) - a.potential_offset) - (a.edges.at)(0);
+    reveal_with_fuel(rpowi, 4);
+    assert(rpowi(x, 1) == x * 1real);
+    assert(rpowi(x, 2) == x * (x * 1real));
+    assert(rpowi(x, 3) == x * (x * (x * 1real)));
+    assert(x * (x * 1real) == x * x) by(nonlinear_arith);
+    assert(x * (x * (x * 1real)) == x * x * x) by(nonlinear_arith);
+    let f = match a.geometry { Geometry::Cartesian => 1real, Geometry::Cylindrical => PI(), Geometry::Spherical => (4real * (PI() / 3real)) };
+    assert(dimension(Geometry::Cartesian) == 1 && dimension(Geometry::Cylindrical) == 2 && dimension(Geometry::Spherical) == 3);
+}
+
 // ---- contract: Cartesian axis (C16.1; with a wall offset C16.2: volume = sum of weights - offset)
 pub proof fn contract_cartesian_volume_is_sum_of_weights(points: int, length: real, potential_offset: Option<real>)
     requires points >= 1
@@ -76,20 +161,13 @@ pub proof fn contract_cartesian_volume_is_sum_of_weights(points: int, length: re
     let off = match potential_offset { Some(x) => x, None => 0real };
     let l = length + off;
     let c = l / (points as real);
+    assert forall|k: int| 0 <= k < points implies #[trigger] (a.integration_weights.at)(k) == c by {
+        contract_form_cartesian(points, length, potential_offset, k);
+    }
+    contract_form_cartesian(points, length, potential_offset, 0);
     lemma_rsum_const(points, a.integration_weights.at, c);
     assert((points as real) * (l / (points as real)) == l) by(nonlinear_arith) requires points >= 1;
-    // volume(): edges[points] - off - edges[0], edges = linspace(0, l, points + 1)
-    let en = (a.edges.at)(points);
-    assert(en == 0real + (points as real) * (l - 0real) / (((points + 1) - 1) as real));
-    assert((points as real) * l / (points as real) == l) by(nonlinear_arith) requires points >= 1;
-    assert(en == l);
-    assert((a.edges.at)(0) == 0real) by {
-        assert((0int as real) * (l - 0real) / (((points + 1) - 1) as real) == 0real) by(nonlinear_arith) requires points >= 1;
-    }
-    reveal_with_fuel(rpowi, 2);
-    assert(dimension(Geometry::Cartesian) == 1);
-    assert(volume(a) == 1real * rpowi(l - off, 1));
-    assert(rpowi(l - off, 1) == (l - off) * 1real);
+    contract_form_volume(a);
 }
 pub proof fn pre_sat_cartesian() ensures 16int >= 1 {}
 
@@ -106,31 +184,20 @@ pub proof fn contract_spherical_volume_is_sum_of_weights(points: int, length: re
     let n = points as real;
     let h = l / n;
     let c = (4real * (PI() / 3real)) * (h * h * h);
+    assert forall|k: int| 0 <= k < points implies #[trigger] (a.integration_weights.at)(k) == c * ((3 * k * k + 3 * k + 1) as real) by {
+        contract_form_spherical(points, length, k);
+    }
+    contract_form_spherical(points, length, 0);
     lemma_rsum_cubes(points, a.integration_weights.at, c);
     assert(((points * points * points) as real) == n * n * n) by(nonlinear_arith) requires n == points as real;
     assert((h * h * h) * (n * n * n) == l * l * l) by(nonlinear_arith) requires h == l / n, n >= 1real;
     assert(c * (n * n * n) == (4real * (PI() / 3real)) * (l * l * l)) by(nonlinear_arith)
         requires c == (4real * (PI() / 3real)) * (h * h * h), (h * h * h) * (n * n * n) == l * l * l;
-    let en = (a.edges.at)(points);
-    assert(en == 0real + n * (l - 0real) / (((points + 1) - 1) as real));
-    assert(n * l / n == l) by(nonlinear_arith) requires n >= 1real;
-    assert(en == l);
-    assert((a.edges.at)(0) == 0real) by {
-        assert((0int as real) * (l - 0real) / (((points + 1) - 1) as real) == 0real) by(nonlinear_arith) requires points >= 1;
-    }
-    reveal_with_fuel(rpowi, 4);
-    assert(dimension(Geometry::Spherical) == 3);
-    assert(rpowi(l, 3) == l * (l * (l * 1real)));
-    assert(l * (l * (l * 1real)) == l * l * l) by(nonlinear_arith);
+    contract_form_volume(a);
 }
 
 // ---- contract: polar (logarithmic cylindrical) axis.  alpha is the result of a fixed-point loop and is
 // havoc'd by the lift (L6): the identity holds for every alpha.
-pub open spec fn polar_c(points: int, alpha: real, l: real) -> real { ((rexp(((-(2real)) * alpha) * (points as real)) * PI()) * l) * l }
-pub open spec fn polar_k0(alpha: real) -> real {
-    (rexp(2real * alpha) * (((2real * rexp(alpha)) + rexp(2real * alpha)) - 1real))
-        / (((1real + rexp(alpha)) * (1real + rexp(alpha))) * (rexp(2real * alpha) - 1real))
-}
 proof fn lemma_exp_step(alpha: real, i: int)
     ensures rexp((2real * alpha) * ((i + 1) as real)) == rexp((2real * alpha) * (i as real)) * rexp(2real * alpha)
 {
@@ -178,6 +245,12 @@ pub proof fn contract_polar_volume_is_sum_of_weights(points: int, length: real)
     let l = length;
     let alpha = new_polar__havoc_alpha(points, length);
     let c = polar_c(points, alpha, l);
+    contract_form_polar_first(points, length);
+    contract_form_polar_second(points, length);
+    contract_form_polar_edges(points, length);
+    assert forall|i: int| 2 <= i < points implies #[trigger] (a.integration_weights.at)(i) == (rexp((2real * alpha) * (i as real)) * (rexp(2real * alpha) - 1real)) * c by {
+        contract_form_polar_rest(points, length, i);
+    }
     lemma_polar_sum(points, a.integration_weights.at, alpha, c);
     // exp(2 alpha n) * exp(-2 alpha n) = 1
     let x = (2real * alpha) * (points as real);
@@ -190,15 +263,9 @@ pub proof fn contract_polar_volume_is_sum_of_weights(points: int, length: real)
     assert(ea * eb == 1real);
     assert(ea * (((eb * PI()) * l) * l) == PI() * (l * l)) by(nonlinear_arith) requires ea * eb == 1real;
     // volume(): edges[points] = l * exp(-alpha * 0) = l, edges[0] = 0
-    let en = (a.edges.at)(points);
     assert((-(alpha)) * ((points - points) as real) == 0real) by(nonlinear_arith);
-    assert(en == l * rexp(0real));
-    assert((a.edges.at)(0) == 0real);
-    reveal_with_fuel(rpowi, 3);
-    assert(dimension(Geometry::Cylindrical) == 2);
-    assert(rpowi(l, 2) == l * (l * 1real));
-    assert(l * (l * 1real) == l * l) by(nonlinear_arith);
-    // from the statement: the volume of a disc of radius l (unit height) is pi*l^2
+    assert((a.edges.at)(points) == l * rexp(0real));
+    contract_form_volume(a);
 }
 } // verus!
 fn main() {}
